@@ -75,18 +75,18 @@ func jsonStr(s string) string {
 // ---- abstract tree ----
 
 type GCmd struct {
-	Shell string `json:"sh,omitempty"`
-	Task  string `json:"task,omitempty"`
-	Extra OM     `json:"-"`
+	Shell  string `json:"sh,omitempty"`
+	Task   string `json:"task,omitempty"`
+	Extra  OM     `json:"-"`
 	ExtraS string `json:"extra,omitempty"`
 }
 
 type GTask struct {
-	Name  string   `json:"name"`
-	Attrs OM       `json:"-"` // yaml key -> value (everything but cmds/deps)
-	AttrS string   `json:"attrs,omitempty"`
-	Cmds  []GCmd   `json:"cmds"`
-	Deps  []GCmd   `json:"deps,omitempty"` // Task (+Extra)
+	Name  string `json:"name"`
+	Attrs OM     `json:"-"` // yaml key -> value (everything but cmds/deps)
+	AttrS string `json:"attrs,omitempty"`
+	Cmds  []GCmd `json:"cmds"`
+	Deps  []GCmd `json:"deps,omitempty"` // Task (+Extra)
 }
 
 type GInclude struct {
@@ -111,9 +111,13 @@ type GFile struct {
 	Env      OM         `json:"-"`
 	Includes []GInclude `json:"includes,omitempty"`
 	Tasks    []GTask    `json:"tasks"`
+	Raw      string     `json:"raw,omitempty"` // not a Taskfile: written as is (keeps a directory in existence)
 }
 
 func (f *GFile) Render() string {
+	if f.Raw != "" {
+		return f.Raw
+	}
 	var top OM
 	if f.Version != "" {
 		top = append(top, KV{"version", f.Version})
@@ -274,6 +278,12 @@ func applyOpt(r *rand.Rand, in *GInclude, opt string, childTasks []string) {
 	case "excludes":
 		if len(childTasks) > 0 {
 			in.Excludes = []string{childTasks[r.Intn(len(childTasks))]}
+			for _, ct := range childTasks {
+				// the default task is special in Tasks.Merge (namespace alias): exclude it often when it exists
+				if ct == "default" && r.Intn(2) == 0 {
+					in.Excludes = []string{"default"}
+				}
+			}
 		} else {
 			in.Excludes = []string{"nonexistent"}
 		}
@@ -506,6 +516,25 @@ func Generate(r *rand.Rand, g GenOpts) []*GFile {
 	// with the qualified name of an included task; a collision must be reported, never overwrite
 	if g.Mode == "c08" && g.Index%5 == 2 && len(allIncs) > 0 {
 		colonFamily(r, files, allIncs, addInclude, g.Index/5)
+		return files
+	}
+	// directed family: a non-flattened include that excludes the default task of a file that defines one
+	// (the `<ns>` alias of `<ns>:default` must simply not be created)
+	if g.Mode == "c08" && g.Index%10 == 4 && len(allIncs) > 0 {
+		e := allIncs[r.Intn(len(allIncs))]
+		in := &files[e.p].Includes[e.k]
+		child := files[e.c]
+		has := false
+		for _, t := range child.Tasks {
+			has = has || t.Name == "default"
+		}
+		if !has {
+			child.Tasks = append(child.Tasks, GTask{Name: "default", Cmds: []GCmd{{Shell: marker(child.Path, "default")}}})
+		}
+		in.Advanced, in.Flatten, in.Excludes = true, false, []string{"default"}
+		if r.Intn(2) == 0 && len(child.Tasks) > 1 {
+			in.Excludes = append(in.Excludes, child.Tasks[0].Name)
+		}
 		return files
 	}
 	// injected error causes (at most one per tree, in about a third of the trees)
@@ -793,6 +822,50 @@ func GenerateTpl(r *rand.Rand, idx int) []*GFile {
 		b.Includes = []GInclude{incX("x1", "gcc", "../x"), incX("x2", "cl", "../x")}
 		root.Includes = []GInclude{{NS: "b", Taskfile: "./b"}, incX("x3", "generic", "./x")}
 		files = append(files, b)
+	}
+	return files
+}
+
+// GenerateDirLeak: a diamond whose shared file is included once in long form with dir: and once in short
+// form, and has a dynamic (sh:) global variable.  Vars.Merge stamps Dir = include.Dir on the variables of
+// the long-form include; which copy the short-form branch and the root end up with must not change
+// between loads (it does when the order in which sibling Taskfiles are processed varies).
+// DirLeakLongName: the name of the long-form includer in GenerateDirLeak(_, idx); idx^1 is the twin tree
+// that differs in nothing but that file name.
+func DirLeakLongName(idx int) string { return []string{"app.yml", "zapp.yml"}[idx%2] }
+
+func GenerateDirLeak(r *rand.Rand, idx int) []*GFile {
+	mkTask := func(path, name string) GTask {
+		return GTask{Name: name, Cmds: []GCmd{{Shell: marker(path, name)}, {Shell: "echo WHERE={{.WHERE}}"}}}
+	}
+	long := DirLeakLongName(idx) // sorts before / after lib.yml
+	short := "lib.yml"
+	root := &GFile{Path: "Taskfile.yml", Version: "3", Tasks: []GTask{mkTask("Taskfile.yml", "root")}}
+	a := &GFile{Path: long, Version: "3", Tasks: []GTask{mkTask(long, "at")}}
+	b := &GFile{Path: short, Version: "3", Tasks: []GTask{mkTask(short, "bt")}}
+	common := &GFile{Path: "common.yml", Version: "3", Tasks: []GTask{mkTask("common.yml", "where")}}
+	common.Vars = OM{{"WHERE", OM{{"sh", "basename $PWD"}}}}
+	if r.Intn(2) == 0 {
+		common.Vars = append(common.Vars, KV{"WHO", OM{{"sh", "echo who-$(basename $PWD)"}}})
+	}
+	a.Includes = []GInclude{{NS: "common", Advanced: true, Taskfile: "./common.yml", Dir: "./appdir"}}
+	b.Includes = []GInclude{{NS: "common", Taskfile: "./common.yml"}}
+	ia := GInclude{NS: "app", Taskfile: "./" + long}
+	ib := GInclude{NS: "lib", Taskfile: "./" + short}
+	if (idx/2)%2 == 0 {
+		root.Includes = []GInclude{ia, ib}
+	} else {
+		root.Includes = []GInclude{ib, ia}
+	}
+	files := []*GFile{root, a, b, common, {Path: "appdir/.keep", Raw: "keep\n"}, {Path: "middir/.keep", Raw: "keep\n"}}
+	switch (idx / 4) % 3 {
+	case 1: // a third branch, long form with another dir
+		c := &GFile{Path: "mid.yml", Version: "3", Tasks: []GTask{mkTask("mid.yml", "mt")}}
+		c.Includes = []GInclude{{NS: "common", Advanced: true, Taskfile: "./common.yml", Dir: "./middir"}}
+		root.Includes = append(root.Includes, GInclude{NS: "mid", Taskfile: "./mid.yml"})
+		files = append(files, c)
+	case 2: // the root includes the shared file itself, in short form
+		root.Includes = append(root.Includes, GInclude{NS: "c0", Taskfile: "./common.yml"})
 	}
 	return files
 }
